@@ -413,6 +413,97 @@ Proof.
   - rewrite Hl. apply (IH ch r n x Hs Hr).
 Qed.
 
+(* ================= 3b. a plain value update below a child (cadd) ================= *)
+Ltac dresc H a E :=
+  match type of H with
+  | rbind ?X _ = _ => destruct X as [a|?] eqn:E; cbn [rbind] in H; [|discriminate H]
+  | (match ?X with _ => _ end) = _ => destruct X as [a|?] eqn:E; cbn [rbind] in H; [|discriminate H]
+  end.
+
+Lemma cuids_dir u g c : cuids (CDir u g c) = u :: flat_map (fun kv => cuids (snd kv)) c.
+Proof.
+  cbn [cuids cuid]. f_equal. induction c as [|[k ch] r IH]; [reflexivity|].
+  cbn [flat_map snd]. rewrite IH. reflexivity.
+Qed.
+
+(* the update touches values only: the node keeps its uid, the subtree keeps all its uids (in order), its
+   process nodes (as a list, whatever the prefix) and its well-formedness *)
+Lemma cadd_keeps fuel : forall n v n', cadd fuel n v = Ok n' ->
+  cuid n' = cuid n /\ cuids n' = cuids n /\ (forall pre, proc_nodes n' pre = proc_nodes n pre) /\
+  (cwf n -> cwf n').
+Proof.
+  induction fuel as [|f IH]; intros n v n' H; [discriminate H|].
+  destruct n as [u z d|u pi|u g c]; destruct v as [dz|vc]; cbn [cadd] in H; try discriminate H;
+    try (inversion H; subst; repeat split; solve [reflexivity|intros _; constructor|auto]).
+  dresc H c' E. inversion H; subst n'.
+  assert (HI : akeys c' = akeys c /\
+               flat_map (fun kv => cuids (snd kv)) c' = flat_map (fun kv => cuids (snd kv)) c /\
+               (forall pre, flat_map (fun kv => proc_nodes (snd kv) (pre ++ [fst kv])) c' =
+                            flat_map (fun kv => proc_nodes (snd kv) (pre ++ [fst kv])) c) /\
+               (Forall (fun kv => cwf (snd kv)) c -> Forall (fun kv => cwf (snd kv)) c')).
+  { refine (rfold_inv _ (fun c' => akeys c' = akeys c /\
+               flat_map (fun kv => cuids (snd kv)) c' = flat_map (fun kv => cuids (snd kv)) c /\
+               (forall pre, flat_map (fun kv => proc_nodes (snd kv) (pre ++ [fst kv])) c' =
+                            flat_map (fun kv => proc_nodes (snd kv) (pre ++ [fst kv])) c) /\
+               (Forall (fun kv => cwf (snd kv)) c -> Forall (fun kv => cwf (snd kv)) c'))
+                      _ _ _ E _ _ _).
+    - reflexivity.
+    - intros c0 [k x] a1 Hg (Hk & Hu & Hp & Hw). cbn [rbind fst snd] in Hg.
+      destruct (alookup k c0) as [ch|] eqn:El.
+      + dresc Hg ch' Ea. inversion Hg; subst a1.
+        destruct (IH ch x ch' Ea) as (_ & Hus & Hps & Hws).
+        split; [rewrite <- Hk; apply akeys_aset_in; congruence|].
+        split; [rewrite <- Hu; apply (flat_map_aset_same _ k ch' ch c0 El); cbn [snd]; exact Hus|].
+        split.
+        * intros pre. rewrite <- (Hp pre). apply (flat_map_aset_same _ k ch' ch c0 El). cbn [fst snd].
+          apply Hps.
+        * intros Hall. specialize (Hw Hall). apply Forall_aset; [|exact Hw]. intros k0. cbn [snd].
+          apply Hws. rewrite Forall_forall in Hw. apply (Hw (k, ch) (alookup_In _ _ _ El)).
+      + inversion Hg; subst a1. auto.
+    - auto. }
+  destruct HI as (Hk & Hu & Hp & Hw).
+  split; [reflexivity|]. split; [rewrite !cuids_dir, Hu; reflexivity|].
+  split; [intros pre; rewrite !proc_nodes_dir; apply Hp|].
+  intros Hwf. inversion Hwf as [| |? ? ? Hnd Hall]; subst. constructor; [rewrite Hk; exact Hnd|auto].
+Qed.
+
+Theorem cadd_cuid fuel n v n' : cadd fuel n v = Ok n' -> cuid n' = cuid n.
+Proof. intros H. apply (cadd_keeps fuel n v n' H). Qed.
+
+(* every node's uid, in traversal order *)
+Theorem cadd_cuids fuel n v n' : cadd fuel n v = Ok n' -> cuids n' = cuids n.
+Proof. intros H. apply (cadd_keeps fuel n v n' H). Qed.
+
+(* no process, no step is created or removed: the process nodes are the same list *)
+Theorem cadd_procs fuel n v n' : cadd fuel n v = Ok n' -> forall pre, proc_nodes n' pre = proc_nodes n pre.
+Proof. intros H. apply (cadd_keeps fuel n v n' H). Qed.
+
+Theorem cadd_cwf fuel n v n' : cwf n -> cadd fuel n v = Ok n' -> cwf n'.
+Proof. intros Hw H. apply (cadd_keeps fuel n v n' H). exact Hw. Qed.
+
+(* the process nodes of the subtree at p are those of the tree below p *)
+Lemma proc_nodes_sub t p ch q pi : cwf t -> cget t p = Some ch ->
+  (In (q, pi) (proc_nodes ch p) <-> starts_with q p = true /\ In (q, pi) (proc_nodes t [])).
+Proof.
+  intros Hw Hg. pose proof (cwf_cget t p ch Hw Hg) as Hwc. split.
+  - intros Hin. destruct (proc_nodes_prefix _ _ _ _ Hin) as (r & ->). split; [apply starts_with_app|].
+    apply (proc_nodes_cget ch p r pi Hwc) in Hin. destruct Hin as (u & Hc).
+    apply (proc_nodes_cget t [] (p ++ r) pi Hw). exists u. rewrite cget_app, Hg. exact Hc.
+  - intros [Hsw Hin]. apply sw_true_iff in Hsw. destruct Hsw as (r & ->).
+    apply (proc_nodes_cget t [] (p ++ r) pi Hw) in Hin. destruct Hin as (u & Hc).
+    rewrite cget_app, Hg in Hc. apply (proc_nodes_cget ch p r pi Hwc). exists u. exact Hc.
+Qed.
+
+(* replacing a subtree by one with the same process nodes changes no process node of the tree *)
+Lemma cset_same_procs_change t p ch ch' t' : cwf t -> p <> [] -> cget t p = Some ch ->
+  (forall pre, proc_nodes ch' pre = proc_nodes ch pre) -> cset t p ch' = Ok t' -> node_change t t' [] [].
+Proof.
+  intros Hw Hne Hg Hp Hc q pi.
+  rewrite (proc_nodes_cset_strong t p ch' t' q pi Hw Hne Hc), Hp, (proc_nodes_sub t p ch q pi Hw Hg). split.
+  - intros [[_ H]|[_ H]]; (split; [left; exact H|intros d []]).
+  - intros [[H|[]] _]. destruct (starts_with q p); [right|left]; auto.
+Qed.
+
 (* ================= 4. the operations ================= *)
 Section Kit2.
 Variable mk_child : N -> cnode * N.
@@ -504,6 +595,23 @@ Qed.
 Lemma deletepath_noop t here p uid t' rp uid' :
   apply_opv vfixed t here (OpDeletePath D p) uid = Ok (t', rp, uid') -> t' = t /\ r_deletions rp = [].
 Proof. intros H. open_op H Hd. cbn [vfixed v_fix_delete_path] in H. inversion H; subst. auto. Qed.
+
+(* ---- a plain value update of a child: no process node changes, nothing is reported ---- *)
+Lemma op_change_upd vr t here k v uid t' rp uid' : cwf t ->
+  apply_opv vr t here (OpUpd D k v) uid = Ok (t', rp, uid') ->
+  node_change t t' (r_deletions rp) [] /\ reports_fit t rp [] /\ cwf t'.
+Proof.
+  intros Hw H. apply (upd_inv mk_child D build copy_procs) in H.
+  destruct H as (u & g & c & Hd & Hcase & _ & ->). cbn [r_deletions].
+  split; [|split; [apply reports_fit_nil; reflexivity|]].
+  - destruct Hcase as [(_ & ->)|(ch & ch' & El & Ea & Ec)]; [apply node_change_refl|].
+    apply (cset_same_procs_change t (here ++ [k]) ch ch' t' Hw (snoc_not_nil here k)); [| |exact Ec].
+    + rewrite cget_app, Hd, cget_cons, El. reflexivity.
+    + apply (cadd_procs _ _ _ _ Ea).
+  - destruct Hcase as [(_ & ->)|(ch & ch' & El & Ea & Ec)]; [exact Hw|].
+    apply (cset_cwf _ _ _ _ Hw) in Ec; [exact Ec|].
+    apply (cadd_cwf _ _ _ _ (cwf_child u g c k ch (cwf_cget t here _ Hw Hd) El) Ea).
+Qed.
 
 (* ---- _add: a fresh child without processes ---- *)
 Lemma add_inv3 vr t here k st uid t' rp uid' :
@@ -1180,7 +1288,8 @@ Definition op_ok (t : cnode) (here : list key) (o : sop D) : Prop :=
   match o with
   | OpGenerate _ k _ _ => cget t (here ++ [k]) = None                 (* the key is new *)
   | OpDivide _ _ ds _ => divide_ok t here ds                          (* the daughters' keys are new and distinct *)
-  | _ => True      (* _add / _move / _delete: success is enough (an existing key is rejected, resp. not generated) *)
+  | _ => True      (* _add / _move / _delete: success is enough (an existing key is rejected, resp. not generated);
+                      a plain value update of a child (OpUpd) needs no premise either *)
   end.
 
 (* what each operation does, uniformly *)
@@ -1188,7 +1297,7 @@ Lemma op_change vr t here o uid t' rp uid' : cwf t -> op_ok t here o ->
   apply_opv vr t here o uid = Ok (t', rp, uid') ->
   exists news, node_change t t' (r_deletions rp) news /\ reports_fit t rp news.
 Proof.
-  intros Hw Hok H. destruct o as [k st|src tgt|src tgt|k d init|m ds ch|k|p]; cbn [op_ok] in Hok.
+  intros Hw Hok H. destruct o as [k st|src tgt|src tgt|k d init|m ds ch|k|p|k v]; cbn [op_ok] in Hok.
   - exists []. apply (op_change_add _ _ _ _ _ _ _ _ _ Hw H).
   - apply (op_change_move _ _ _ _ _ _ _ _ _ Hw H).
   - apply (op_change_movep _ _ _ _ _ _ _ _ _ Hw H).
@@ -1196,13 +1305,14 @@ Proof.
   - destruct (op_change_divide _ _ _ _ _ _ _ _ _ _ Hw Hok H) as (news & Hch & Hfit & _). exists news. auto.
   - exists []. apply (op_change_delete _ _ _ _ _ _ _ _ Hw H).
   - exists []. destruct (op_change_deletepath _ _ _ _ _ _ _ _ Hw H) as (Hch & Hfit & _). auto.
+  - exists []. destruct (op_change_upd _ _ _ _ _ _ _ _ _ Hw H) as (Hch & Hfit & _). auto.
 Qed.
 
 (* well-formedness is preserved *)
 Theorem apply_op_cwf vr t here o uid t' rp uid' : cwf t -> op_ok t here o ->
   apply_opv vr t here o uid = Ok (t', rp, uid') -> cwf t'.
 Proof.
-  intros Hw Hok H. destruct o as [k st|src tgt|src tgt|k d init|m ds ch|k|p]; cbn [op_ok] in Hok.
+  intros Hw Hok H. destruct o as [k st|src tgt|src tgt|k d init|m ds ch|k|p|k v]; cbn [op_ok] in Hok.
   - apply add_inv3 in H. destruct H as (nd & _ & Hc & Hwn & _). apply (cset_cwf _ _ _ _ Hw Hwn Hc).
   - apply move_inv3 in H. destruct H as (u & g & c & node & t1 & Hd & Hl & _ & Hdl & Hcs & _).
     apply (cset_cwf _ _ _ _ (cdel_cwf _ _ _ Hw Hdl) (cwf_child u g c src node (cwf_cget t here _ Hw Hd) Hl) Hcs).
@@ -1212,6 +1322,7 @@ Proof.
   - destruct (op_change_divide _ _ _ _ _ _ _ _ _ _ Hw Hok H) as (news & _ & _ & Hw'). exact Hw'.
   - apply delete_inv3 in H. destruct H as (Hdl & _). apply (cdel_cwf _ _ _ Hw Hdl).
   - destruct (op_change_deletepath _ _ _ _ _ _ _ _ Hw H) as (_ & _ & Hw'). exact Hw'.
+  - destruct (op_change_upd _ _ _ _ _ _ _ _ _ Hw H) as (_ & _ & Hw'). exact Hw'.
 Qed.
 
 (* one update carrying one operation keeps both tables consistent -- for every variant of the model *)
@@ -1526,3 +1637,7 @@ Print Assumptions divide_existing_key_counterexample.
 Print Assumptions divide_duplicate_key_counterexample.
 Print Assumptions generate_steps_counterexample.
 Print Assumptions movep_reports_steps_premise_needed.
+Print Assumptions cadd_cuid.
+Print Assumptions cadd_cuids.
+Print Assumptions cadd_procs.
+Print Assumptions cadd_cwf.
